@@ -61,7 +61,7 @@ func TestC01(t *testing.T) {
 	rig.Main(t, "C01", "rapid programs in native mode run in lockstep on cpu65c816, cpualt and an independent WDC 65C816 reference model over identical sparse "+
 		"16 MiB images: edge-biased initial state, first opcode uniform over 0..255, later opcodes biased to width switches and block moves, operands / pointers / "+
 		"index arithmetic solved just in time to land on page, bank and 24-bit edges; after every step A(16 bit),X,Y,S,D,DBR,K,P,E,PC,Stopped,WDM and every written "+
-		"memory byte are compared.  Non-trivial = the program executed a memory operand, stack traffic, a width switch, a block move, a control transfer or an edge-class "+
+		"memory byte are compared; every other case starts from registers set through the exported fields only on CPU objects that ran all earlier cases, and in a quarter of the cases Flags() and the disassemblers are called between the steps.  Non-trivial = the program executed a memory operand, stack traffic, a width switch, a block move, a control transfer or an edge-class "+
 		"effective address; distinct = hash(initial state, memory seed, patches).",
 		func(r *rig.Run) {
 			ev := r.Ev
